@@ -52,7 +52,13 @@ func (m MsgServer) ChangeRoot(ctx context.Context, msg *sudotypes.MsgChangeRoot)
 		return nil, err
 	}
 
-	pbSudoers.Root = msg.NewRoot
+	// Store the canonical spelling: CheckPermissions compares the stored root with
+	// AccAddress.String().
+	newRoot, err := sdk.AccAddressFromBech32(msg.NewRoot)
+	if err != nil {
+		return nil, fmt.Errorf("failed to parse new root address: %w", err)
+	}
+	pbSudoers.Root = newRoot.String()
 	m.keeper.Sudoers.Set(sdkContext, pbSudoers)
 
 	return &sudotypes.MsgChangeRootResponse{}, nil
@@ -129,5 +135,9 @@ func (sudo *Sudoers) AddContracts(
 func (sudo *Sudoers) RemoveContracts(contracts []string) {
 	for _, contract := range contracts {
 		sudo.Contracts.Remove(contract)
+		// The set holds canonical spellings (see AddContracts).
+		if addr, err := sdk.AccAddressFromBech32(contract); err == nil {
+			sudo.Contracts.Remove(addr.String())
+		}
 	}
 }
